@@ -45,7 +45,13 @@
 (*         on it, the code's reflection-based gates might)                 *)
 (*        Prop = [name: STRING, required: BOOLEAN, type: Schema,           *)
 (*                has_default: BOOLEAN, disabled: BOOLEAN,                 *)
-(*                conflicts, required_if, required_if_not: SUBSET STRING]  *)
+(*                conflicts, required_if, required_if_not: SUBSET STRING,  *)
+(*                display: "none" | "name" | "desc" | "icon" | "all"]      *)
+(*        (display: which parts of the property's documentation exist - no *)
+(*         display value at all, a name only, a description only, an icon  *)
+(*         only, all three.  Documentation: no reason to reject depends on *)
+(*         it (Plain clears it), and the code has to return a verdict -    *)
+(*         not a panic - for every shape.)                                 *)
 (*        (the last three: rules between the FIELDS OF A VALUE - "not      *)
 (*         together with q", "required when q is set", "required when     *)
 (*         none of q.. is set"; see RulesHold.  They apply when DATA is    *)
@@ -93,7 +99,9 @@ MapI(ks, vs, mn, mx, impl) == [kind |-> "map", keys |-> ks, vals |-> vs, min |->
 Map(ks, vs, mn, mx)    == MapI(ks, vs, mn, mx, "plain")
 PropR(n, t, req, dflt, dis, cf, ri, rin) ==
     [name |-> n, required |-> req, type |-> t, has_default |-> dflt, disabled |-> dis,
-     conflicts |-> cf, required_if |-> ri, required_if_not |-> rin]
+     conflicts |-> cf, required_if |-> ri, required_if_not |-> rin, display |-> "none"]
+PropD(n, t, req, disp) == [PropR(n, t, req, FALSE, FALSE, {}, {}, {}) EXCEPT !.display = disp]
+DisplayShapes == {"none", "name", "desc", "icon", "all"}
 PropX(n, t, req, dflt, dis) == PropR(n, t, req, dflt, dis, {}, {}, {})
 Prop(n, t, req)        == PropX(n, t, req, FALSE, FALSE)
 ObjectI(id, ps, unenf, impl) == [kind |-> "object", id |-> id, props |-> ps, id_unenforced |-> unenf, impl |-> impl]
@@ -224,7 +232,7 @@ Reasons(A, B, ta, tb, seen) ==
 
 MustReject(A, B) == Reasons(A, B, {}, {}, {}) # {}
 
-\* Plain(S): S with every property's default and disabled flag and its rules between fields cleared.  The rejection rules are stated
+\* Plain(S): S with every property's default and disabled flag, its rules between fields and its display cleared.  The rejection rules are stated
 \* on the structure of the two schemas only; CompatMC checks MustReject(A, B) = MustReject(Plain(A), Plain(B))
 \* with the same reasons on every pair (a default or a disabled flag neither excuses nor causes a rejection).
 RECURSIVE Plain(_)
@@ -303,6 +311,7 @@ WF(S, table) ==
             /\ \A p \in S.props, q \in S.props : p.name = q.name => p = q
             /\ \A p \in S.props : WF(p.type, table) /\ (p.has_default => p.type.kind \in DefaultKinds)
             /\ \A p \in S.props : (p.conflicts \cup p.required_if \cup p.required_if_not) \subseteq (PropNames(S) \ {p.name})
+            /\ \A p \in S.props : p.display \in DisplayShapes
             /\ S.impl \in {"plain", "mapped", "typed"}
             /\ S.impl # "plain" => (~S.id_unenforced /\ PropNames(S) \subseteq MappedNames)
       [] S.kind = "ref" -> Declared(table, S.id)
